@@ -166,6 +166,7 @@ pub fn fnv(s: &str) -> u64 {
 
 #[derive(Clone, Debug)]
 pub struct Known {
+  pub witness: String,
   pub status: String,
   pub property: String,
   pub family: String,
@@ -191,6 +192,7 @@ pub fn load_known(verif_dir: &str) -> Vec<Known> {
   j.a("findings")
     .iter()
     .map(|f| Known {
+      witness: f.s("witness"),
       status: f.s("status"),
       property: f.s("property"),
       family: f.s("family"),
@@ -433,6 +435,32 @@ pub fn run_check(spec: CheckSpec, tier: Tier) -> i32 {
     }
   }
 
+  // ---- every open finding of this property is re-established from its committed witness file,
+  // so that its KNOWN-FINDING line does not depend on the batch happening to hit it
+  let mut witness_hits: BTreeMap<usize, u64> = BTreeMap::new();
+  for (ki, k) in known.iter().enumerate() {
+    if k.status != "open" || k.property != spec.property || k.witness.is_empty() {
+      continue;
+    }
+    let path = format!("{}/{}", vdir, k.witness);
+    let j = match std::fs::read_to_string(&path).ok().and_then(|s| Json::parse(&s).ok()) {
+      Some(j) => j,
+      None => continue,
+    };
+    let fname = j.s("family");
+    if let Some(fs) = spec.families.iter().find(|f| f.fam.name() == fname) {
+      let fam = &*fs.fam;
+      let w = j.get("workload").cloned().unwrap_or(Json::Null);
+      let knobs = j.get("knobs").cloned().unwrap_or(Json::Null);
+      let mut cfg = cfg_from_knobs(j.u("seed"), &knobs);
+      cfg.replay = Some(decisions_from_json(j.get("decisions").unwrap_or(&Json::Null)));
+      let out = fam.exec(&w, cfg);
+      if !out.invalid && out.violations.iter().any(|v| match_known(&known, spec.property, fam, &w, v) == Some(ki)) {
+        witness_hits.insert(ki, 1);
+      }
+    }
+  }
+
   // ---- report
   let mut exit = 0;
   let mut n_viol = 0;
@@ -451,6 +479,9 @@ pub fn run_check(spec: CheckSpec, tier: Tier) -> i32 {
     for (k, n) in &stats[fi].lock().unwrap().known_hits {
       *known_lines.entry(*k).or_insert(0u64) += n;
     }
+  }
+  for (k, n) in witness_hits {
+    *known_lines.entry(k).or_insert(0u64) += n;
   }
   for (k, n) in &known_lines {
     println!("KNOWN-FINDING: property={} {} [blame={} class={} hits={}]", spec.property, known[*k].what, known[*k].blame, known[*k].class, n);
